@@ -367,14 +367,12 @@ func (ctx *Ctx) get(path []byte) any {
 			// Var found.
 			if v.val == nil && len(v.buf) > 0 {
 				// Special case: var is a byte slice.
-				ctx.bufCB.Reset().Write(v.buf)
-				ctx.bufX = &ctx.bufCB
+				ctx.bufX = (*bytebuf.Chain)(&v.buf)
 				return ctx.bufX
 			}
 			if v.val == nil && v.cntrF {
 				// Special case: var is a counter.
-				ctx.bufI = v.cntr
-				ctx.bufX = &ctx.bufI
+				ctx.bufX = &v.cntr
 				return ctx.bufX
 			}
 			// Inspect variable using inspector object.
